@@ -105,7 +105,7 @@ def check(pid, tier, seed):
     asan_tool = core.build("tool")
     verdict = core.Verdict(pid)
     rnd = random.Random(seed)
-    names = "{2, 5}" if tier == "quick" else "{2, 3, 5}"
+    names = "{3, 6}" if tier == "quick" else "{3, 4, 6}"
     cfg = "SPECIFICATION Spec\nCHECK_DEADLOCK FALSE\nINVARIANT ShowAgrees\nINVARIANT SyntaxIffError\nCONSTRAINT ExportCase\nCONSTANTS\n NLay = 2\n NameSet = %s\n Shapes = {\"bb\", \"ns\", \"sn\", \"nn\", \"ss\"}\n Export = TRUE\n" % names
     r = core.tlc_ok("MC_Tool", write_cfg(cfg), timeout=1200)
     if r.violated:
